@@ -118,6 +118,7 @@ namespace link_layer {
                 impl()
                     : has_key_( false )
                     , encryption_in_progress_( false )
+                    , start_encryption_requested_( false )
                 {}
 
                 LinkLayer& that()
@@ -135,7 +136,8 @@ namespace link_layer {
 
                     if ( opcode == LinkLayer::LL_ENC_REQ && size == 23 )
                     {
-                        encryption_in_progress_ = true;
+                        encryption_in_progress_     = true;
+                        start_encryption_requested_ = false;
                         fill< layout_t >( write, { LinkLayer::ll_control_pdu_code, 1 + 8 + 4, LinkLayer::LL_ENC_RSP } );
 
                         const std::uint8_t* const pdu_body = layout_t::body( pdu ).first;
@@ -157,8 +159,9 @@ namespace link_layer {
                         bluetoe::details::write_64bit( &write_body[ 1 ], skds );
                         bluetoe::details::write_32bit( &write_body[ 9 ], ivs );
                     }
-                    else if ( opcode == LinkLayer::LL_START_ENC_RSP && size == 1 )
+                    else if ( opcode == LinkLayer::LL_START_ENC_RSP && size == 1 && start_encryption_requested_ )
                     {
+                        start_encryption_requested_ = false;
                         fill< layout_t >( write, { LinkLayer::ll_control_pdu_code, 1, LinkLayer::LL_START_ENC_RSP } );
                         that().start_transmit_encrypted();
                         encryption_changed = that().connection_data_.is_encrypted( true );
@@ -212,6 +215,7 @@ namespace link_layer {
 
                         that().start_receive_encrypted();
                         that().commit_ll_transmit_buffer( out_buffer );
+                        start_encryption_requested_ = true;
                     }
                     else
                     {
@@ -224,6 +228,7 @@ namespace link_layer {
 
                 void reset_encryption()
                 {
+                    start_encryption_requested_ = false;
                     that().connection_data_.is_encrypted( false );
                     that().stop_receive_encrypted();
                     that().stop_transmit_encrypted();
@@ -232,6 +237,7 @@ namespace link_layer {
             private:
                 bool has_key_;
                 bool encryption_in_progress_;
+                bool start_encryption_requested_;
             };
 
             using link_state = bluetoe::details::link_state;
